@@ -355,7 +355,7 @@ func runCheck(cfg checkCfg) int {
 	sort.Strings(gone)
 	// a labelled obligation (postcondition, invariant, frame, in-body assert, callee precondition, lemma) that was
 	// discharged at baseline time and is no longer generated is a violation: the code it pinned down is gone
-	safetyName := regexp.MustCompile(`#(index|slice|make|alloc|panic|divzero|typeassert|nilmap|overflow|recursion|f2i|guarded_by)#[-\w]*\d+`)
+	safetyName := regexp.MustCompile(`#(index|slice|make|alloc|panic|divzero|typeassert|nilmap|overflow|recursion|f2i|guarded_by|nilderef)#[-\w]*\d+`)
 	for _, name := range gone {
 		if cfg.writeBase {
 			// re-baselining: this property no longer generates the entry
@@ -504,7 +504,7 @@ func outDir() string {
 
 func isSafetyKind(k string) bool {
 	switch k {
-	case "index", "slice", "make", "alloc-bound", "panic", "divzero", "typeassert", "nilmap", "overflow", "recursion":
+	case "index", "slice", "make", "alloc-bound", "panic", "divzero", "typeassert", "nilmap", "overflow", "recursion", "nilderef":
 		return true
 	}
 	return false
